@@ -205,17 +205,17 @@ func asmAlphabet() []asmOp {
 			return !m.emit(itInstr, []byte{0xA9, 0x34, 0x12}, -1)
 		}},
 	}
-	for _, l := range []string{"a", "b"} {
-		l := l
+	for _, sym := range []string{"a", "b"} {
+		sym, l := sym, asmLabelName(sym)
 		ops = append(ops,
-			asmOp{"BNE(" + l + ")", func(e *asm.Emitter) { e.BNE(l) }, func(m *asmModel) bool { return !m.emitRef(0xD0, true, l) }},
-			asmOp{"BRA(" + l + ")", func(e *asm.Emitter) { e.BRA(l) }, func(m *asmModel) bool { return !m.emitRef(0x80, true, l) }},
-			asmOp{"JMP_abs(" + l + ")", func(e *asm.Emitter) { e.JMP_abs(l) }, func(m *asmModel) bool { return !m.emitRef(0x4C, false, l) }},
+			asmOp{"BNE(" + sym + ")", func(e *asm.Emitter) { e.BNE(l) }, func(m *asmModel) bool { return !m.emitRef(0xD0, true, l) }},
+			asmOp{"BRA(" + sym + ")", func(e *asm.Emitter) { e.BRA(l) }, func(m *asmModel) bool { return !m.emitRef(0x80, true, l) }},
+			asmOp{"JMP_abs(" + sym + ")", func(e *asm.Emitter) { e.JMP_abs(l) }, func(m *asmModel) bool { return !m.emitRef(0x4C, false, l) }},
 		)
 	}
-	for _, l := range []string{"a", "b"} {
-		l := l
-		ops = append(ops, asmOp{"Label(" + l + ")", func(e *asm.Emitter) { e.Label(l) }, func(m *asmModel) bool { return !m.label(l) }})
+	for _, sym := range []string{"a", "b"} {
+		sym, l := sym, asmLabelName(sym)
+		ops = append(ops, asmOp{"Label(" + sym + ")", func(e *asm.Emitter) { e.Label(l) }, func(m *asmModel) bool { return !m.label(l) }})
 	}
 	for _, n := range []int{0, 1, 15, 16, 17, 33} {
 		n := n
@@ -348,7 +348,7 @@ func (o asmObs) matchesModel(m *asmModel) string {
 	if o.flags != m.p {
 		return fmt.Sprintf("Flags() = %02x, model %02x", o.flags, m.p)
 	}
-	for _, n := range []string{"a", "b"} {
+	for _, n := range asmLabelNames {
 		v, ok := o.labels[n]
 		w, okm := m.labels[n]
 		if ok != okm || v != w {
@@ -358,7 +358,16 @@ func (o asmObs) matchesModel(m *asmModel) string {
 	return ""
 }
 
-var asmLabelNames = []string{"a", "b"}
+// the two labels of the alphabet: the second has the first as a prefix and is longer than the
+// 12-character listing column, so name handling (map keys, truncation) cannot hide behind "a"/"b"
+var asmLabelNames = []string{"a", "a_long_label_name_b"}
+
+func asmLabelName(sym string) string {
+	if sym == "b" {
+		return asmLabelNames[1]
+	}
+	return asmLabelNames[0]
+}
 
 // forEachHistory enumerates all op sequences up to depth (every non-empty prefix is visited once).
 func forEachHistory(depth int, f func(idx []int)) {
